@@ -54,23 +54,11 @@ theorem memmap_ok (bytes rows nc itemsize : Nat) (hb : 0 < bytes) (hle : rows * 
   unfold memmap
   rw [if_neg (by omega), if_neg (by omega)]
 
-/-- The warning can be formatted: either warnings are ignored or both keys are present. -/
-theorem warnBin_ok (nc : Nat) (fs : T) (fts : Option T) (hs iw : Bool)
-    (hw : iw = true ∨ (hs = true ∧ fts.isSome = true)) :
-    (Hdr.ofMeta nc fs fts hs).warnBin iw = .ok () := by
-  unfold Hdr.warnBin
-  rcases hw with h | ⟨h1, h2⟩
-  · simp [h]
-  · cases fts with
-    | none => simp at h2
-    | some x => simp [h1]
-
 /-- `openBin` for the offline reader with meta data, under the round-trip law for the frames on disk. -/
-theorem openBin_offline_meta (A : Arith T) (iw : Bool) (nc : Nat) (fs fts : T) (hs : Bool) (itemsize bytes : Nat)
+theorem openBin_offline_meta (A : Arith T) (nc : Nat) (fs fts : T) (itemsize bytes : Nat)
     (hnc : 0 < nc) (hsz : 0 < itemsize) (hb : 0 < bytes) (hfs : A.isZero fs = false)
-    (hw : iw = true ∨ hs = true)
     (hrt : RoundTrip A fs (framesOnDisk bytes nc itemsize)) :
-    ∃ fts', openBin A .offline iw (.ofMeta nc fs (some fts) hs) itemsize bytes = .ok (.ofMeta nc fs (some fts') hs) ∧
+    ∃ fts', openBin A .offline (.ofMeta nc fs (some fts)) itemsize bytes = .ok (.ofMeta nc fs (some fts')) ∧
       A.rint (A.mul fts' fs) = framesOnDisk bytes nc itemsize ∧
       (nc * A.rint (A.mul fts fs) * itemsize = bytes → fts' = fts) ∧
       (nc * A.rint (A.mul fts fs) * itemsize ≠ bytes →
@@ -87,22 +75,17 @@ theorem openBin_offline_meta (A : Arith T) (iw : Bool) (nc : Nat) (fs fts : T) (
     have hm : memmap bytes (A.rint (A.mul (A.div (A.ofNat (framesOnDisk bytes nc itemsize)) fs) fs)) nc itemsize
         = .ok () := by
       rw [hrt]; exact memmap_ok _ _ _ _ hb (frames_mul_le bytes nc itemsize)
-    have hwarn := warnBin_ok nc fs (some fts) hs iw (by
-      rcases hw with h | h
-      · exact Or.inl h
-      · exact Or.inr ⟨h, rfl⟩)
-    simp [openBin, nsOf, Hdr.nsOffline, Hdr.nc, Hdr.fs, Hdr.setFileTimeSecs, hc, hpos, hfs, hm, hwarn, bind,
+    simp [openBin, nsOf, Hdr.nsOffline, Hdr.nc, Hdr.fs, Hdr.setFileTimeSecs, hc, hpos, hfs, hm, bind,
       Except.bind, pure, Except.pure]
 
 /-- `openBin` for the online reader with meta data, under the online floor law.  `fileTimeSecs` may be absent
-(recording in progress) as long as the warning can be formatted. -/
-theorem openBin_online_meta (A : Arith T) (iw : Bool) (nc : Nat) (fs : T) (fts : Option T) (hs : Bool)
+(recording in progress). -/
+theorem openBin_online_meta (A : Arith T) (nc : Nat) (fs : T) (fts : Option T)
     (itemsize bytes : Nat)
     (hnc : 0 < nc) (hsz : 0 < itemsize) (hb : 0 < bytes) (hfs : A.isZero fs = false)
-    (hw : iw = true ∨ (hs = true ∧ fts.isSome = true))
     (hon : OnlineFloor A nc itemsize bytes) :
-    ∃ fts', openBin A .online iw (.ofMeta nc fs fts hs) itemsize bytes = .ok (.ofMeta nc fs fts' hs) ∧
-      nsOf A .online (.ofMeta nc fs fts' hs) itemsize bytes = .ok (framesOnDisk bytes nc itemsize) ∧
+    ∃ fts', openBin A .online (.ofMeta nc fs fts) itemsize bytes = .ok (.ofMeta nc fs fts') ∧
+      nsOf A .online (.ofMeta nc fs fts') itemsize bytes = .ok (framesOnDisk bytes nc itemsize) ∧
       (nc * framesOnDisk bytes nc itemsize * itemsize ≠ bytes →
         fts' = some (A.div (A.ofNat (framesOnDisk bytes nc itemsize)) fs)) := by
   have hns : onlineNs A nc itemsize bytes = .ok (framesOnDisk bytes nc itemsize) := by
@@ -118,31 +101,14 @@ theorem openBin_online_meta (A : Arith T) (iw : Bool) (nc : Nat) (fs : T) (fts :
     · simp [openBin, nsOf, Hdr.nc, hns, hc, hm, bind, Except.bind, pure, Except.pure]
     · simp [nsOf, Hdr.nc, hns]
   · refine ⟨some (A.div (A.ofNat (framesOnDisk bytes nc itemsize)) fs), ?_, ?_, fun _ => rfl⟩
-    · have hwarn := warnBin_ok nc fs fts hs iw hw
-      simp [openBin, nsOf, Hdr.nc, Hdr.fs, Hdr.setFileTimeSecs, hns, hc, hpos, hfs, hm, hwarn, bind, Except.bind,
+    · simp [openBin, nsOf, Hdr.nc, Hdr.fs, Hdr.setFileTimeSecs, hns, hc, hpos, hfs, hm, bind, Except.bind,
         pure, Except.pure]
     · simp [nsOf, Hdr.nc, hns]
 
-/-- The finding: online reader, meta data of a recording in progress (no `fileSizeBytes`), warnings not ignored,
-a size that is not a whole number of frames ⇒ `KeyError`. -/
-theorem openBin_online_keyError (A : Arith T) (nc : Nat) (fs : T) (fts : Option T)
-    (itemsize bytes : Nat)
-    (hnc : 0 < nc) (hsz : 0 < itemsize) (hfs : A.isZero fs = false)
-    (hon : OnlineFloor A nc itemsize bytes)
-    (hc : nc * framesOnDisk bytes nc itemsize * itemsize ≠ bytes) :
-    openBin A .online false (.ofMeta nc fs fts false) itemsize bytes = .error .keyError := by
-  have hns : onlineNs A nc itemsize bytes = .ok (framesOnDisk bytes nc itemsize) := by
-    unfold onlineNs
-    rw [if_neg (by omega)]
-    unfold OnlineFloor at hon
-    rw [hon]
-  have hpos : itemsize * nc ≠ 0 := Nat.pos_iff_ne_zero.mp (Nat.mul_pos hsz hnc)
-  simp [openBin, nsOf, Hdr.nc, Hdr.fs, Hdr.warnBin, hns, hc, hpos, hfs, bind, Except.bind]
-
 /-- `openCbin` under the round-trip law for the announced number of samples. -/
-theorem openCbin_meta (A : Arith T) (nc : Nat) (fs fts : T) (hs : Bool) (n cnc : Nat)
+theorem openCbin_meta (A : Arith T) (nc : Nat) (fs fts : T) (n cnc : Nat)
     (hfs : A.isZero fs = false) (hrt : RoundTrip A fs n) :
-    ∃ fts', openCbin A (.ofMeta nc fs (some fts) hs) (n, cnc) = .ok (.ofMeta nc fs (some fts') hs) ∧
+    ∃ fts', openCbin A (.ofMeta nc fs (some fts)) (n, cnc) = .ok (.ofMeta nc fs (some fts')) ∧
       (cnc = nc → A.rint (A.mul fts' fs) = n) ∧
       ((n, cnc) ≠ (A.rint (A.mul fts fs), nc) → fts' = A.div (A.ofNat n) fs) := by
   by_cases hc : (n, cnc) = (A.rint (A.mul fts fs), nc)
